@@ -348,7 +348,7 @@ def main():
             "enable": "harness/.cargo/config.toml passes --cfg inputlayer_verif to every crate of the harness build "
                       "(path dependency on /repo)",
             "baseline_off_cmd": "cd /repo && cargo nextest run --workspace --no-fail-fast --offline --test-threads 8",
-            "source_commits": ["363bcfa"],
+            "source_commits": ["363bcfa", "225a747"],
             "add_only": True,
         },
         "engines": ENGINES,
